@@ -173,13 +173,13 @@ package proto
 //@ -- nested quantifier reasoning)
 //@ spec func uvStable(b Val) Bool = forall P, x :: trigger(uvAt(arrayof(old(b.Buf)), P, x), uvAt(arrayof(old(b.Buf)), P, x) && offset(old(b.Buf)) <= P && P + uvsize(x) <= offset(old(b.Buf)) + old(len(b.Buf)) ==> uvAt(arrayof(b.Buf), P - offset(old(b.Buf)) + offset(b.Buf), x))
 
-//@ contract lemmaUvAtStable(s, t, p, n, x) props(C01,C17)
+//@ contract lemmaUvAtStable(s, t, p, n, x) props(C01,C17,C14)
 //@   requires 0 <= p && 0 <= n && n <= len(s) && n <= len(t) && p + uvsize(x) <= n
 //@   requires forall k in 0..n :: t[k] == s[k]
 //@   requires uvAt(arrayof(s), offset(s) + p, x)
 //@   ensures uvAt(arrayof(t), offset(t) + p, x) {varint-image-survives}
 
-//@ contract lemmaUvAtCopy(s, t, so, to, n, p, x) props(C01,C17)
+//@ contract lemmaUvAtCopy(s, t, so, to, n, p, x) props(C01,C17,C14)
 //@   requires 0 <= so && 0 <= to && 0 <= n && so + n <= len(s) && to + n <= len(t) && so <= p && p + uvsize(x) <= so + n
 //@   requires forall i :: trigger(arrayof(t)[i], offset(t) + to <= i && i < offset(t) + to + n ==> arrayof(t)[i] == arrayof(s)[i - offset(t) - to + offset(s) + so])
 //@   requires uvAt(arrayof(s), offset(s) + p, x)
@@ -422,7 +422,7 @@ package proto
 //@ valid (w *Writer): w != nil ==> w.buf != nil
 //@ spec func wRI(w Val) Bool = 0 <= w.bufOffset && w.bufOffset <= len(w.buf.Buf)
 
-//@ contract (w *Writer) cutBuffer() props(C14)
+//@ contract (w *Writer) cutBuffer() props(C14,C02,C09)
 //@   requires w != nil && wRI(w)
 //@   modifies w.bufOffset, w.vec
 //@   ensures wRI(w) && w.bufOffset == len(w.buf.Buf) {offset-at-end}
@@ -431,14 +431,14 @@ package proto
 //@   ensures old(w.bufOffset) < len(w.buf.Buf) ==> len(w.vec[old(len(w.vec))]) == len(w.buf.Buf) - old(w.bufOffset) && cap(w.vec[old(len(w.vec))]) == len(w.vec[old(len(w.vec))]) {cut-is-cap-limited}
 //@   ensures old(w.bufOffset) < len(w.buf.Buf) ==> arrayof(w.vec[old(len(w.vec))]) == arrayof(w.buf.Buf) && offset(w.vec[old(len(w.vec))]) == offset(w.buf.Buf) + old(w.bufOffset) {cut-is-the-staged-bytes}
 
-//@ contract (w *Writer) ChainWrite(data) props(C09,C14)
+//@ contract (w *Writer) ChainWrite(data) props(C09,C14,C02)
 //@   requires w != nil && wRI(w)
 //@   modifies w.bufOffset, w.vec
 //@   ensures wRI(w) && w.bufOffset == len(w.buf.Buf) {cut-first}
 //@   ensures len(w.vec) == old(len(w.vec)) + 1 + ite(old(w.bufOffset) < len(w.buf.Buf), 1, 0) {count}
 //@   ensures arrayof(w.vec[len(w.vec) - 1]) == arrayof(data) && offset(w.vec[len(w.vec) - 1]) == offset(data) && len(w.vec[len(w.vec) - 1]) == len(data) {data-is-last}
 
-//@ contract (w *Writer) reset() props(C14)
+//@ contract (w *Writer) reset() props(C14,C04,C09)
 //@   requires w != nil
 //@   modifies w.bufOffset, w.needCut, w.vec, w.buf.Buf, contents(w.vec)
 //@   ensures w.bufOffset == 0 && len(w.vec) == 0 && len(w.buf.Buf) == 0
@@ -536,11 +536,11 @@ package proto
 // readers over in-memory buffers (used by the round-trip lemmas)
 
 //@ import io io
-//@ contract NewReader(rd) (r) props(C08,C17)
+//@ contract NewReader(rd) (r) props(C08,C17,C01)
 //@   requires rd != nil
 //@   ensures r != nil && r.in == rd.in && r.pos == rd.pos && r.end == rd.end && r.failed == rd.failed && r.reliable == rd.reliable {same-stream}
 //@   ensures [internal] r.decompressed != nil && r.decompressed.reader == r.data [C08] {decompressor-reads-through-the-same-buffered-reader}
-//@ contract (b *Buffer) Reader() (r) props(C17)
+//@ contract (b *Buffer) Reader() (r) props(C17,C01)
 //@   requires b != nil
 //@   ensures r != nil && r.pos == 0 && r.end == len(b.Buf) && !r.failed && r.reliable {fresh-reader}
 //@   ensures forall k in 0..len(b.Buf) :: r.in[k] == b.Buf[k] {over-the-buffer}
